@@ -10,8 +10,9 @@ VARIABLES l, peers, bad, devs, sid,
           synced,   \* <<p, row>> last written on p by a pull
           dead,     \* <<p, slot, text>> a row with that text disappeared from that slot of p
           oldtext,  \* <<p, row, text>> text of a row of p that a pull replaced
+          oldslot,  \* <<p, slot, text>> the same, by storage slot: the index keeps that text under the slot whoever occupies it later
           st
-tvars == <<l, peers, bad, devs, sid, synced, dead, oldtext, st>>
+tvars == <<l, peers, bad, devs, sid, synced, dead, oldtext, oldslot, st>>
 ToSet(s) == {s[i] : i \in DOMAIN s}
 Ev == Rec[l]
 Expected(p) == {n.row : n \in {m \in ToSet(Ev.st[p].nodes) : m.ent = Ev.ent /\ m.text = Ev.tok}}
@@ -23,6 +24,7 @@ SlotOf(p, x) == (CHOOSE n \in ToSet(Ev.st[p].nodes) : n.row = x).slot
 Attribute(o) == IF o[1] = "missed" /\ <<o[2], o[3]>> \in synced THEN "SyncedRowsNotIndexed"
                 ELSE IF o[1] = "stale" /\ <<o[2], SlotOf(o[2], o[3]), Ev.tok>> \in dead THEN "DeleteKeepsIndexEntry"
                 ELSE IF o[1] = "stale" /\ <<o[2], o[3], Ev.tok>> \in oldtext THEN "SyncedRowsNotIndexed"
+                ELSE IF o[1] = "stale" /\ <<o[2], SlotOf(o[2], o[3]), Ev.tok>> \in oldslot THEN "SyncedRowsNotIndexed"
                 ELSE "none"
 RowVer(s, p) == {<<n.row, n.m, n.s, n.slot>> : n \in ToSet(s[p].nodes)}
 Step == /\ l <= Len(Rec) /\ Ev.ev \notin {"begin", "end"} /\ l' = l + 1
@@ -30,7 +32,7 @@ Step == /\ l <= Len(Rec) /\ Ev.ev \notin {"begin", "end"} /\ l' = l + 1
            THEN LET named == {<<o, Attribute(o)>> : o \in Wrong}
                 IN /\ bad' = bad \cup {<<"UNEXPLAINED", x[1]>> : x \in {y \in named : y[2] \notin KNOWN}}
                    /\ devs' = devs \cup {x[2] : x \in {y \in named : y[2] \in KNOWN}}
-                   /\ UNCHANGED <<synced, dead, oldtext, st>>
+                   /\ UNCHANGED <<synced, dead, oldtext, oldslot, st>>
            ELSE /\ UNCHANGED <<bad, devs>>
                 /\ st' = [p \in peers |-> Ev.st[p]]
                 \* rows (re)written on the puller by this pull: new rows and new versions
@@ -41,14 +43,18 @@ Step == /\ l <= Len(Rec) /\ Ev.ev \notin {"begin", "end"} /\ l' = l + 1
                               THEN oldtext \cup {<<Ev.p, n.row, n.text>> : n \in {m \in ToSet(st[Ev.p].nodes) :
                                        \E k \in ToSet(Ev.st[Ev.p].nodes) : k.row = m.row /\ k.text # m.text}}
                               ELSE oldtext
+                /\ oldslot' = IF Ev.ev = "pull"
+                              THEN oldslot \cup {<<Ev.p, n.slot, n.text>> : n \in {m \in ToSet(st[Ev.p].nodes) :
+                                       \E k \in ToSet(Ev.st[Ev.p].nodes) : k.row = m.row /\ k.text # m.text}}
+                              ELSE oldslot
                 /\ dead' = dead \cup UNION {{<<p, n.slot, n.text>> : n \in {m \in ToSet(st[p].nodes) : <<m.row, m.slot>> \notin {<<k.row, k.slot>> : k \in ToSet(Ev.st[p].nodes)}}} : p \in peers}
         /\ UNCHANGED <<peers, sid>>
 Begin == /\ l <= Len(Rec) /\ Ev.ev = "begin" /\ l' = l + 1 /\ peers' = ToSet(Ev.peers) /\ sid' = Ev.sid
-         /\ bad' = {} /\ devs' = {} /\ synced' = {} /\ dead' = {} /\ oldtext' = {}
+         /\ bad' = {} /\ devs' = {} /\ synced' = {} /\ dead' = {} /\ oldtext' = {} /\ oldslot' = {}
          /\ st' = [p \in ToSet(Ev.peers) |-> [nodes |-> <<>>]]
 End == /\ l <= Len(Rec) /\ Ev.ev = "end" /\ l' = l + 1 /\ PrintT(<<"DEVS", sid, devs>>)
-       /\ UNCHANGED <<peers, bad, devs, sid, synced, dead, oldtext, st>>
-TInit == l = 1 /\ peers = {} /\ bad = {} /\ devs = {} /\ sid = 0 /\ synced = {} /\ dead = {} /\ oldtext = {} /\ st = <<>>
+       /\ UNCHANGED <<peers, bad, devs, sid, synced, dead, oldtext, oldslot, st>>
+TInit == l = 1 /\ peers = {} /\ bad = {} /\ devs = {} /\ sid = 0 /\ synced = {} /\ dead = {} /\ oldtext = {} /\ oldslot = {} /\ st = <<>>
 TNext == Begin \/ Step \/ End
 TSpec == TInit /\ [][TNext]_tvars
 Monitors == \A o \in bad : o[1] # "UNEXPLAINED"
